@@ -31,6 +31,64 @@ func sigSet(p *load.Program) map[string]string {
 }
 
 var b1Ref map[string]string
+var b2Ref map[string]string
+
+// b2Same: functions of the tag-selected transpose files that are the same algorithm in both
+// builds (dispatch, mask mover, iterator constructor); only the per-width data kernels differ.
+var b2Same = map[string]bool{"tensor.(StdEng).Transpose": true, "tensor.(StdEng).denseTranspose": true, "tensor.(StdEng).transposeMask": true, "tensor.transposeIterator": true}
+
+func bodySet(p *load.Program) map[string]string {
+	out := map[string]string{}
+	for k := range b2Same {
+		if fi := p.Func(k); fi != nil && fi.Decl.Body != nil {
+			c := ir.NewCanon(p.Fset, fi.Pkg.TypesInfo, ir.Options{PureCall: func(n string) bool { return sPure[n] }})
+			out[k] = ir.Render(c.Func(fi.Decl))
+		}
+	}
+	return out
+}
+
+// B2: build-independent parts of the transposition code are literally the same algorithm in
+// every configuration (canonical forms compared with the default configuration's).
+func B2(rc *RC) {
+	rc.S.Declare("B2", "build-independent transposition code: the dispatcher, the mask mover and the iterator constructor of the tag-selected transpose files have the same canonical form in every build configuration (only the per-width data kernels differ between the copying and the in-place build)", 3)
+	cur := bodySet(rc.P)
+	if b2Ref == nil {
+		if rc.P.Config.Name == "default" {
+			b2Ref = cur
+		} else {
+			ref, err := load.Load(rc.P.Dir, load.Configs["default"])
+			if err != nil {
+				rc.S.Undec("B2", "default-configuration", "-", "cannot load the reference configuration: "+err.Error())
+				return
+			}
+			b2Ref = bodySet(ref)
+		}
+	}
+	var keys []string
+	for k := range b2Same {
+		keys = append(keys, k)
+	}
+	sort.Strings(keys)
+	for _, k := range keys {
+		r, inRef := b2Ref[k]
+		c, inCur := cur[k]
+		pos := "-"
+		if fi := rc.P.Func(k); fi != nil {
+			pos = rc.P.Pos(fi.Decl.Pos())
+		}
+		switch {
+		case !inRef && !inCur:
+			continue
+		case !inRef || !inCur:
+			rc.S.Viol("B2", k, pos, fmt.Sprintf("%s exists in only one of the default configuration and %s", k, rc.P.Config.Name)).Sig = "missing"
+		case r != c:
+			rc.S.Viol("B2", k, pos, fmt.Sprintf("%s differs between the default configuration and %s: %s", k, rc.P.Config.Name, firstDiff(c, r))).Sig = lineDiff(c, r)
+		default:
+			rc.S.Ok("B2", k, pos, fmt.Sprintf("same canonical form as in the default configuration (%d lines)", strings.Count(c, "\n")))
+		}
+	}
+}
 
 func B1(rc *RC) {
 	rc.S.Declare("B1", "build parity: the functions of tag-selected files (transpose copy/in-place, divmod asm/pure Go) exist with identical signatures in every configuration", 8)
